@@ -181,8 +181,14 @@ def bases():
     out.append(Base("a.com", "/search", ["q=http://b.com/x"]))
     out.append(Base("a.com", "/r", ["q=b.com/x", "v=1"]))
     out.append(Base("a.com", "/r", ["redirect_to=http%3A%2F%2Fb.com%2Fx"]))
+    # targets that still need cleaning once they are decoded: an escape written with lower-case hex (escaped twice), an escaped trailing blank, an escaped control character
+    out.append(Base("h.com", "/r", ["url=http%3A%2F%2Fb.com%2Fa%252fb"]))
+    out.append(Base("h.com", "/r", ["x=1", "url=http%3A%2F%2Fb.com%2Fa%20"]))
+    out.append(Base("h.com", "/r", ["url=http%3A%2F%2Fb.com%2Fa%00b"]))
     # a search item next to a redirection: the order of the two items is an order of query items
     out.append(Base("a.com", "/s", ["q=x", "url=http%3A%2F%2Fb.com%2Fy"]))
+    # an ordinary item that happens to be NAMED like a hint ('l' for a language) next to a redirection
+    out.append(Base("a.com", "/t", ["l=fr", "url=http%3A%2F%2Fb.com%2Fz"]))
     out.append(Base("a.com", "/a", ["id=1"], "/route"))
     out.append(Base("a.com", "/a", [], "!/route"))
     return out
